@@ -229,6 +229,10 @@ def run(ctx):
     # ---- R11.6 input PDUs carry the MCS-assigned identifiers (rule R03.5 of C03): user id as PDU source, channel id as target --------
     import c03
     ctx.include(c03.run, ('R03.5',), 'R11.6')
+    # ---- R11.7 one submitted event = one frame on the link: Link::write serialises into a fresh buffer and delivers exactly that (R14.1):
+    # a buffer kept across calls re-sends an event whose write failed, or appends the tail of a longer earlier message
+    import c14
+    ctx.include(c14.run, ('R14.1',), 'R11.7')
 
 def c12_gate(ctx, P, W):
     """input is written only in state Data; every accepted demand-active refreshes the share id used by input PDUs"""
